@@ -12,6 +12,11 @@ from collections import OrderedDict, defaultdict, deque, namedtuple
 import optree
 from optree.registry import __GLOBAL_NAMESPACE as GLOBAL_NAMESPACE
 
+# the binding must be to the engine freshly built from the tree under verification, never to /repo's in-place artefact
+_bd = os.environ.get('VERIF_BUILD_DIR')
+if _bd:
+    assert optree.__file__.startswith(_bd) and optree._C.__file__.startswith(_bd), (optree.__file__, optree._C.__file__, _bd)
+
 KINT, KSTR, KFLT, KORD, KUNORD = 0, 1, 2, 3, 4
 NCUSTOM, NLEAF, NNONE, NTUPLE, NLIST, NDICT, NNT, NODICT, NDDICT, NDEQUE, NSS = range(11)
 KIND_NAME = {NCUSTOM: 'custom', NLEAF: 'leaf', NNONE: 'none', NTUPLE: 'tuple', NLIST: 'list', NDICT: 'dict',
@@ -87,7 +92,8 @@ class KUnord:
         return f'KUnord({self.v})'
 
 
-KOrd.__module__ = KUnord.__module__ = 'vuniv'   # type-name rank: builtins.float < builtins.int < builtins.str < vuniv.KOrd < vuniv.KUnord
+KOrd.__module__ = KUnord.__module__ = 'vuniv'
+sys.modules.setdefault('vuniv', sys.modules[__name__])   # so that keys can be pickled by reference   # type-name rank: builtins.float < builtins.int < builtins.str < vuniv.KOrd < vuniv.KUnord
 
 
 def mk_key(k):
